@@ -1344,7 +1344,7 @@ impl<B> StreamRef<B> {
     pub fn send_push_promise(
         &mut self,
         mut request: Request<()>,
-    ) -> Result<StreamRef<B>, UserError> {
+    ) -> Result<StreamRef<B>, crate::Error> {
         // Clear before taking lock, incase extensions contain a StreamRef.
         request.extensions_mut().clear();
         let mut me = self.opaque.inner.lock().unwrap();
@@ -1354,6 +1354,8 @@ impl<B> StreamRef<B> {
         let send_buffer = &mut *send_buffer;
 
         let actions = &mut me.actions;
+        // No new streams may be started once the connection is going away.
+        actions.ensure_no_conn_error()?;
         let promised_id = actions.send.reserve_local()?;
 
         let child_key = {
@@ -1384,7 +1386,7 @@ impl<B> StreamRef<B> {
             let mut child_stream = me.store.resolve(child_key);
             child_stream.unlink();
             child_stream.remove();
-            return Err(err);
+            return Err(err.into());
         }
 
         me.refs += 1;
